@@ -37,6 +37,14 @@ class Registry:
             self.exc[name] = bases[0] if bases else "Exception"
         self.consts.setdefault(name, ("class", name))
 
+    def close_world(self, base, subclasses):
+        """the instances of `base` met by the verified code are instances of one of `subclasses` (the base class is
+        abstract; the list is checked against the class definitions of the tree under check on every run): a method call
+        on a receiver of static type `base` is split over them"""
+        if not hasattr(self, "closed"):
+            self.closed = {}
+        self.closed[base] = list(subclasses)
+
     def enum(self, name, members, real=None):
         """members: list of (name, value)"""
         self.enums[name] = list(members)
